@@ -571,6 +571,7 @@ func (ex *Exec) step(fr *Frame, ins ssa.Instruction) {
 		if m == nil {
 			ex.goPanic(fr, i, "assignment to entry in nil map")
 		}
+		ex.raceWrite(m, fr, i)
 		ex.mapSet(m, copyVal(ex.get(fr, i.Key)), copyVal(ex.get(fr, i.Value)))
 	case *ssa.Store:
 		p, ok := ex.get(fr, i.Addr).(Pointer)
@@ -579,6 +580,10 @@ func (ex *Exec) step(fr *Frame, ins ssa.Instruction) {
 		}
 		if p.L == nil {
 			ex.goPanic(fr, i, "nil pointer dereference (store)")
+		}
+		if ex.race {
+			ex.raceWrite(p.L, fr, i)
+			ex.raceAggregate(p.L.V, true, fr, i)
 		}
 		p.L.V = copyVal(ex.get(fr, i.Val))
 	case *ssa.Extract:
@@ -599,6 +604,7 @@ func (ex *Exec) step(fr *Frame, ins ssa.Instruction) {
 		case *MapV:
 			it := &MapIter{m: v}
 			if v != nil {
+				ex.raceRead(v, fr, i)
 				it.keys = append(it.keys, v.Keys...)
 				if ex.mapOrder && len(it.keys) > 1 {
 					it.keys = ex.permute(it.keys)
@@ -725,6 +731,9 @@ func (ex *Exec) lookup(fr *Frame, i *ssa.Lookup) Value {
 	x := ex.get(fr, i.X)
 	switch m := x.(type) {
 	case *MapV:
+		if m != nil {
+			ex.raceRead(m, fr, i)
+		}
 		k := ex.get(fr, i.Index)
 		vt := i.X.Type().Underlying().(*types.Map).Elem()
 		idx := ex.mapFindConcrete(m, k)
@@ -938,6 +947,10 @@ func (ex *Exec) unop(fr *Frame, i *ssa.UnOp) Value {
 		}
 		if pz, isP := p.L.V.(PoisonV); isP && ex.lenient == 0 {
 			ex.unsupported("load of unsupported value: %s", pz.Why)
+		}
+		if ex.race {
+			ex.raceRead(p.L, fr, i)
+			ex.raceAggregate(p.L.V, false, fr, i)
 		}
 		return copyVal(p.L.V)
 	case token.NOT:
@@ -1212,6 +1225,7 @@ func (ex *Exec) callBuiltin(fr *Frame, ins ssa.Instruction, b *ssa.Builtin, args
 			if v == nil {
 				return BVConst(0, 64)
 			}
+			ex.raceRead(v, fr, ins)
 			return BVConst(uint64(len(v.Keys)), 64)
 		case *ArrayV:
 			return BVConst(uint64(len(v.E)), 64)
@@ -1267,6 +1281,7 @@ func (ex *Exec) callBuiltin(fr *Frame, ins ssa.Instruction, b *ssa.Builtin, args
 		}
 		if s.A != nil && s.Len+len(add) <= s.Cap {
 			for k, v := range add {
+				ex.raceWrite(s.A.E[s.Off+s.Len+k], fr, ins)
 				s.A.E[s.Off+s.Len+k].V = v
 			}
 			return SliceV{A: s.A, Off: s.Off, Len: s.Len + len(add), Cap: s.Cap}
@@ -1324,6 +1339,7 @@ func (ex *Exec) callBuiltin(fr *Frame, ins ssa.Instruction, b *ssa.Builtin, args
 	case "delete":
 		m := args[0].(*MapV)
 		if m != nil {
+			ex.raceWrite(m, fr, ins)
 			ex.mapDelete(m, args[1])
 		}
 		return nil
